@@ -233,63 +233,192 @@ func (e *Env) RFragOrder() {
 				e.Run.Check("R-FRAG", key, e.Prog.Pos(fs.Pos()), false, "bounds `"+from+"` .. `"+to+"` are not lines of positions in the file set")
 				return true
 			}
-			roots := map[string]bool{}
-			for _, inner := range []string{mf[1], mt[1]} {
-				for _, m := range ident.FindAllStringSubmatch(inner, -1) {
-					if m[1] != "token" {
+			checkSpan := func(fromInner, toInner string, at ast.Node, key string) {
+				roots := map[string]bool{}
+				for _, inner := range []string{fromInner, toInner} {
+					for _, m := range ident.FindAllStringSubmatch(inner, -1) {
+						if m[1] != "token" {
+							roots[m[1]] = true
+						}
+					}
+				}
+				// the text test that selects the entity (strings.HasPrefix(X.Text|X.String, …)) names it too
+				if guard, okg := pathCond(c, lit.Body.List, at); okg {
+					for _, m := range regexp.MustCompile(`strings\.HasPrefix\(([A-Za-z_]\w*)\.`).FindAllStringSubmatch(guard, -1) {
 						roots[m[1]] = true
 					}
 				}
+				var names []string
+				for r := range roots {
+					names = append(names, r)
+				}
+				sort.Strings(names)
+				e.Run.Check("R-FRAG", key, e.Prog.Pos(at.Pos()), len(names) == 1,
+					"lines of "+fromInner+" .. "+toInner+" mix the extents of different things ("+strings.Join(names, ", ")+"): newlines between them are suppressed (or newlines inside are kept) and the text is printed on other lines")
 			}
-			// the text test that selects the entity (strings.HasPrefix(X.Text|X.String, …)) names it too
-			if guard, okg := pathCond(c, lit.Body.List, fs); okg {
-				for _, m := range regexp.MustCompile(`strings\.HasPrefix\(([A-Za-z_]\w*)\.`).FindAllStringSubmatch(guard, -1) {
-					roots[m[1]] = true
+			// the loop may live in a local closure span(from, to): then every call site is a range
+			var inner *ast.FuncLit
+			ast.Inspect(lit.Body, func(m ast.Node) bool {
+				if fl, ok := m.(*ast.FuncLit); ok && fl.Body.Pos() <= fs.Pos() && fs.End() <= fl.Body.End() {
+					inner = fl
+				}
+				return true
+			})
+			if inner != nil {
+				pidx := map[string]int{}
+				k := 0
+				for _, p := range inner.Type.Params.List {
+					for _, nm := range p.Names {
+						pidx[nm.Name] = k
+						k++
+					}
+				}
+				fi, okf := pidx[mf[1]]
+				ti, okt := pidx[mt[1]]
+				var bound types.Object
+				ast.Inspect(lit.Body, func(m ast.Node) bool {
+					if as, ok := m.(*ast.AssignStmt); ok && len(as.Lhs) == 1 && len(as.Rhs) == 1 && as.Rhs[0] == ast.Expr(inner) {
+						if id, ok := as.Lhs[0].(*ast.Ident); ok {
+							bound = info.Defs[id]
+						}
+					}
+					return true
+				})
+				if okf && okt && bound != nil {
+					nAvoid-- // the closure itself is not a range; its call sites are
+					ast.Inspect(lit.Body, func(m ast.Node) bool {
+						call, ok := m.(*ast.CallExpr)
+						if !ok || len(call.Args) != k {
+							return true
+						}
+						if id, ok := call.Fun.(*ast.Ident); ok && info.Uses[id] == bound {
+							nAvoid++
+							checkSpan(c.ExprStr(call.Args[fi]), c.ExprStr(call.Args[ti]), call, fmt.Sprintf("fragment: avoided line range #%d spans one entity", nAvoid))
+						}
+						return true
+					})
+					return true
 				}
 			}
-			var names []string
-			for r := range roots {
-				names = append(names, r)
-			}
-			sort.Strings(names)
-			e.Run.Check("R-FRAG", key, e.Prog.Pos(fs.Pos()), len(names) == 1,
-				"lines "+from+" .. "+to+" mix the extents of different things ("+strings.Join(names, ", ")+"): newlines between them are suppressed (or newlines inside are kept) and the text is printed on other lines")
+			checkSpan(mf[1], mt[1], fs, key)
 			return true
 		})
 		undo()
 		e.Run.Floor("R-FRAG", "avoided line ranges in fragment()", nAvoid, 2)
 	}
-	// link(): `for !found { try++; switch try { ...; default: panic } }`
+	// link(): a decoration point returned by findDecoration is only used once the search has
+	// succeeded: every use of the `dec` result (outside the search calls themselves) is reached
+	// only with the matching `found` result true — after a `for !found { … }` loop without break, or
+	// under a path condition that has `found` as a conjunct (e.g. after `if !found { panic }`). A
+	// search that can give up silently leaves a comment or newline unattached (it disappears from
+	// the output) or dereferences a nil decoration point.
 	lk := load.FuncDecl(pkg, "fileDecorator", "link")
 	nLoops := 0
-	if lk != nil {
+	if lk != nil && lk.Body != nil {
+		type pair struct{ dec, found types.Object }
+		var pairs []pair
+		objOf := func(x ast.Expr) types.Object {
+			id, ok := x.(*ast.Ident)
+			if !ok || id.Name == "_" {
+				return nil
+			}
+			if o := info.Defs[id]; o != nil {
+				return o
+			}
+			return info.Uses[id]
+		}
 		ast.Inspect(lk.Body, func(n ast.Node) bool {
-			fs, ok := n.(*ast.ForStmt)
-			if !ok || fs.Cond == nil || c.ExprStr(fs.Cond) != "!found" {
+			as, ok := n.(*ast.AssignStmt)
+			if !ok || len(as.Lhs) != 3 || len(as.Rhs) != 1 {
 				return true
 			}
-			nLoops++
-			okLoop := false
-			for _, st := range fs.Body.List {
-				if sw, ok := st.(*ast.SwitchStmt); ok {
-					for _, cl := range sw.Body.List {
-						if cc := cl.(*ast.CaseClause); cc.List == nil && c.PanicsOnly(cc.Body) {
-							okLoop = true
+			call, ok := as.Rhs[0].(*ast.CallExpr)
+			if !ok || !schema.IsMethod(c.Callee(call), load.PkgDecorator, "fileDecorator", "findDecoration") {
+				return true
+			}
+			d, f := objOf(as.Lhs[1]), objOf(as.Lhs[2])
+			if d == nil || f == nil {
+				return true
+			}
+			for _, p := range pairs {
+				if p.dec == d && p.found == f {
+					return true
+				}
+			}
+			pairs = append(pairs, pair{d, f})
+			return true
+		})
+		for _, p := range pairs {
+			// uses of dec outside assignments from findDecoration
+			ast.Inspect(lk.Body, func(n ast.Node) bool {
+				if as, ok := n.(*ast.AssignStmt); ok && len(as.Lhs) == 3 {
+					return false
+				}
+				id, ok := n.(*ast.Ident)
+				if !ok || info.Uses[id] != p.dec {
+					return true
+				}
+				nLoops++
+				good := false
+				// (a) under `found` in the path condition
+				if cond, okc := pathCond(c, lk.Body.List, id); okc {
+					for _, cj := range splitTop(cond, " && ") {
+						if strings.TrimSpace(cj) == p.found.Name() {
+							good = true
 						}
 					}
 				}
-			}
-			hasBreak := false
-			ast.Inspect(fs.Body, func(m ast.Node) bool {
-				if b, ok := m.(*ast.BranchStmt); ok && (b.Tok == token.BREAK || b.Tok == token.GOTO) {
-					hasBreak = true
-				}
+				// (b) after a `for !found` loop without break in an enclosing statement list
+				ast.Inspect(lk.Body, func(m ast.Node) bool {
+					fs, ok := m.(*ast.ForStmt)
+					if !ok || fs.Cond == nil || fs.End() > id.Pos() {
+						return true
+					}
+					if u, ok := ast.Unparen(fs.Cond).(*ast.UnaryExpr); ok && u.Op == token.NOT {
+						if fid, ok := ast.Unparen(u.X).(*ast.Ident); ok && info.Uses[fid] == p.found {
+							hasBreak := false
+							ast.Inspect(fs.Body, func(b ast.Node) bool {
+								if br, ok := b.(*ast.BranchStmt); ok && (br.Tok == token.BREAK || br.Tok == token.GOTO) {
+									hasBreak = true
+								}
+								return true
+							})
+							// found must not be reset between the loop and the use
+							reset := false
+							ast.Inspect(lk.Body, func(b ast.Node) bool {
+								if as, ok := b.(*ast.AssignStmt); ok && as.Pos() > fs.End() && as.End() < id.Pos() {
+									for _, l := range as.Lhs {
+										if objOf(l) == p.found {
+											reset = true
+										}
+									}
+								}
+								return true
+							})
+							// inside the loop found is only ever set by a search
+							forged := false
+							ast.Inspect(fs.Body, func(b ast.Node) bool {
+								if as, ok := b.(*ast.AssignStmt); ok && len(as.Lhs) != 3 {
+									for _, l := range as.Lhs {
+										if objOf(l) == p.found {
+											forged = true
+										}
+									}
+								}
+								return true
+							})
+							if !hasBreak && !reset && !forged {
+								good = true
+							}
+						}
+					}
+					return true
+				})
+				e.Run.Check("R-FRAG", "link: a decoration point from findDecoration is used only after the search succeeded", e.Prog.Pos(id.Pos()), good,
+					"`"+p.dec.Name()+"` is used where `"+p.found.Name()+"` is not known to be true: a search that gives up silently leaves a comment or newline unattached (it disappears from the output) or dereferences a nil decoration point")
 				return true
 			})
-			e.Run.Check("R-FRAG", "link: search loop ends only by finding a decoration point or panicking", e.Prog.Pos(fs.Pos()), okLoop && !hasBreak,
-				"a search loop that can give up silently leaves a comment or newline unattached: it disappears from the output")
-			return true
-		})
+		}
 	}
-	e.Run.Floor("R-FRAG", "attachment search loops in link", nLoops, 2)
+	e.Run.Floor("R-FRAG", "uses of findDecoration results in link", nLoops, 2)
 }
